@@ -333,7 +333,7 @@ fn run_witness(ctx: &mut Ctx) {
 
 pub fn run(ctx: &mut Ctx) {
     run_witness(ctx);
-    let total = ctx.n(4_000, 6_000_000);
+    let total = ctx.n(20_000, 6_000_000);
     for case in ctx.cases(total) {
         if ctx.out_of_budget() {
             ctx.count("budget-stop");
